@@ -317,6 +317,15 @@ def aseq(stmts, env, fresh):
             if t != "optv": raise Untranslatable("None test on a non-optional " + tkey(x))
             fresh[0] += 1; nm = f"v{fresh[0]}"; e2 = dict(env); e2[tkey(x)] = (nm, "v")
             return f"match {g} with None => {aseq(rest, env, fresh)} | Some {nm} => {aseq(list(s.body) + rest, e2, fresh)} end"
+        nt = none_tests(s.test)
+        if nt is not None and len(nt) == 1 and len(s.body) == 1 and isinstance(s.body[0], ast.Return) and s.body[0].value is not None:
+            # if X is None: return E   ==>   match X with None => E | Some x => ... end
+            g0, t0 = aexpr(nt[0], env)
+            if t0 != "optv": raise Untranslatable("None test on a non-optional " + tkey(nt[0]))
+            e0, te = aexpr(s.body[0].value, env)
+            if te != "bool": raise Untranslatable("return type")
+            fresh[0] += 1; nm = f"v{fresh[0]}"; e2 = dict(env); e2[tkey(nt[0])] = (nm, "v")
+            return f"match {g0} with None => {e0} | Some {nm} => {aseq(rest, e2, fresh)} end"
         c, t = aexpr(s.test, env)
         if t != "bool": raise Untranslatable("condition " + tkey(s.test))
         if len(s.body) == 1 and isinstance(s.body[0], ast.Return) and s.body[0].value is not None:
@@ -347,6 +356,20 @@ def regenerate_range_allows(repo, coq_dir):
     except (Untranslatable, StopIteration, SyntaxError, OSError) as e:
         text = header + ("(* VersionRange.allows: source no longer fits the translated subset: " + str(e).replace("*)", "* )").replace("(*", "( *")[:300] + " *)\n"
                          "Definition rr_allows_gen := rr_allows.\n"); status = ("untranslatable", str(e))
+    # Version.allows (version.py): the receiver is a version, the argument an optional version
+    try:
+        src2 = pathlib.Path(repo) / "src/poetry/core/constraints/version/version.py"
+        tree = ast.parse(src2.read_text())
+        cls = next(n for n in tree.body if isinstance(n, ast.ClassDef) and n.name == "Version")
+        node = next(n for n in cls.body if isinstance(n, ast.FunctionDef) and n.name == "allows")
+        if [a.arg for a in node.args.args] != ["self", "version"] or node.args.vararg or node.args.kwarg or node.args.kwonlyargs or node.args.defaults:
+            raise Untranslatable("signature of Version.allows")
+        body = aseq(node.body, {"self": ("self", "v"), "version": ("version", "optv")}, [0])
+        text += f"Definition v_allows_gen (self : version) (version : option version) : bool :=\n  {body}.\n"; status2 = ("ok", "")
+    except (Untranslatable, StopIteration, SyntaxError, OSError) as e:
+        text += ("(* Version.allows: source no longer fits the translated subset: " + str(e).replace("*)", "* )").replace("(*", "( *")[:300] + " *)\n"
+                 "Definition v_allows_gen (self : version) (version : option version) : bool := match version with None => false | Some v => v_allows self v end.\n")
+        status2 = ("untranslatable", str(e))
     if not out.exists() or out.read_text() != text:
         out.write_text(text)
-    return status
+    return {"version_range.VersionRange.allows": status, "version.Version.allows": status2}
